@@ -78,6 +78,9 @@ func twinPESHeader(h *astits.PESHeader, plen, hstuff int) []byte {
 		if o.HasPrivateData {
 			d = append(d, o.PrivateData...)
 		}
+		if o.HasPackHeaderField {
+			d = append(d, o.PackField) // pack_field_length; only 0 (no pack_header bytes) is generated: the library does not read a pack_header
+		}
 		if o.HasProgramPacketSequenceCounter {
 			d = append(d, 0x80|o.PacketSequenceCounter&0x7f, 0x80|o.MPEG1OrMPEG2ID&1<<6|o.OriginalStuffingLength&0x3f)
 		}
@@ -102,11 +105,17 @@ func twinPESHeader(h *astits.PESHeader, plen, hstuff int) []byte {
 func randOpt(r *rng, fl int, xfl int) *astits.PESOptionalHeader {
 	o := &astits.PESOptionalHeader{MarkerBits: 2, ScramblingControl: uint8(r.intn(4)), Priority: r.boolean(), DataAlignmentIndicator: r.boolean(),
 		IsCopyrighted: r.boolean(), IsOriginal: r.boolean(), PTSDTSIndicator: uint8(fl >> 6 & 3)}
-	if o.PTSDTSIndicator >= 2 {
+	stale := r.intn(3) == 0 // fields guarded by a cleared flag hold values all the same (a reused struct): they are not part of the value
+	if o.PTSDTSIndicator >= 2 || stale {
 		o.PTS = &astits.ClockReference{Base: cr33(r)}
 	}
-	if o.PTSDTSIndicator == 3 {
+	if o.PTSDTSIndicator == 3 || stale {
 		o.DTS = &astits.ClockReference{Base: cr33(r)}
+	}
+	if stale {
+		o.ESCR, o.ESRate, o.DSMTrickMode = &astits.ClockReference{Base: cr33(r), Extension: 5}, uint32(r.intn(1<<22)), buildTrick(r)
+		o.AdditionalCopyInfo, o.CRC, o.PrivateData, o.PackField = uint8(r.intn(128)), uint16(r.intn(1<<16)), r.bytes(16), 0
+		o.PacketSequenceCounter, o.PSTDBufferSize, o.Extension2Data, o.Extension2Length = uint8(r.intn(128)), uint16(r.intn(1<<13)), r.bytes(3), 3
 	}
 	if fl&0x20 != 0 {
 		o.HasESCR, o.ESCR = true, &astits.ClockReference{Base: cr33(r), Extension: int64(r.intn(512))}
@@ -205,6 +214,11 @@ func runPES(line []byte, rec *recorder) {
 				}
 				av := r.intn(40)
 				pvec("flags", h, exactPlen(h, 0, av), 0, av)
+				if fl&1 != 0 { // the same with pack_header_field_flag set and an empty pack header (pack_field_length 0): parse direction only
+					hp := &astits.PESHeader{StreamID: sidOf(), OptionalHeader: randOpt(r, fl, x)}
+					hp.OptionalHeader.HasPackHeaderField, hp.OptionalHeader.PackField = true, 0
+					pvec("flags-pack-header-field", hp, exactPlen(hp, 0, av), 0, av)
+				}
 			}
 		}
 		for f1 := 0; f1 < 64; f1++ {
